@@ -314,6 +314,36 @@ Section Seq.
         end
     end.
 
+  Lemma main_instrs_eq tc : main_instrs tc = t_setup tc ++ t_act tc ++ t_before_assert tc ++ t_assert tc.
+  Proof. unfold main_instrs, main_phases. cbn [flat_map t_instrs]. now rewrite app_nil_r. Qed.
+
+  Lemma sym_execute_gen_seq repaired b tc :
+    sym_execute_gen repaired roots b tc =
+    match validate_all roots b tc with
+    | inr (p, i, e) => Outcome (match e with VExn _ => VdInternal | _ => VdValidation end) (Some (p, i)) false []
+    | inl _ =>
+        let '(rt, f, om) := run_seq b tc main_phases in
+        let '(_, fc, oc) := run_main roots Cleanup (if repaired then puts b (main_instrs tc) else rt) 0 (t_cleanup tc) in
+        Outcome (fst (finish f fc)) (snd (finish f fc)) true (om ++ oc)
+    end.
+  Proof.
+    unfold sym_execute_gen. rewrite main_instrs_eq.
+    destruct (validate_all roots b tc) as [tv|[[p i] e]]; [|reflexivity].
+    unfold main_phases. cbn [run_seq t_instrs].
+    set (X := puts b (t_setup tc ++ t_act tc ++ t_before_assert tc ++ t_assert tc)).
+    destruct (run_main roots Setup b 0 (t_setup tc)) as [[rt1 [[i1 x1]|]] o1].
+    { destruct (run_main roots Cleanup (if repaired then X else rt1) 0 (t_cleanup tc)) as [[rtc [[j xc]|]] oc]; reflexivity. }
+    destruct (run_main roots Act rt1 0 (t_act tc)) as [[rt2 [[i2 x2]|]] o2].
+    { destruct (run_main roots Cleanup (if repaired then X else rt2) 0 (t_cleanup tc)) as [[rtc [[j xc]|]] oc];
+        cbn; rewrite <- ?app_assoc; reflexivity. }
+    destruct (run_main roots BeforeAssert rt2 0 (t_before_assert tc)) as [[rt3 [[i3 x3]|]] o3].
+    { destruct (run_main roots Cleanup (if repaired then X else rt3) 0 (t_cleanup tc)) as [[rtc fc] oc].
+      cbn. rewrite <- ?app_assoc. reflexivity. }
+    destruct (run_main roots Assert rt3 0 (t_assert tc)) as [[rt4 [[i4 x4]|]] o4];
+      destruct (run_main roots Cleanup (if repaired then X else rt4) 0 (t_cleanup tc)) as [[rtc [[j xc]|]] oc];
+      cbn; rewrite <- ?app_assoc, ?app_nil_r; reflexivity.
+  Qed.
+
   Lemma sym_execute_seq b tc :
     sym_execute roots b tc =
     match validate_all roots b tc with
@@ -323,19 +353,7 @@ Section Seq.
         let '(_, fc, oc) := run_main roots Cleanup rt 0 (t_cleanup tc) in
         Outcome (fst (finish f fc)) (snd (finish f fc)) true (om ++ oc)
     end.
-  Proof.
-    unfold sym_execute, sym_execute_gen. destruct (validate_all roots b tc) as [tv|[[p i] e]]; [|reflexivity].
-    unfold main_phases. cbn [run_seq t_instrs].
-    destruct (run_main roots Setup b 0 (t_setup tc)) as [[rt1 [[i1 x1]|]] o1].
-    { destruct (run_main roots Cleanup rt1 0 (t_cleanup tc)) as [[rtc [[j xc]|]] oc]; reflexivity. }
-    destruct (run_main roots Act rt1 0 (t_act tc)) as [[rt2 [[i2 x2]|]] o2].
-    { destruct (run_main roots Cleanup rt2 0 (t_cleanup tc)) as [[rtc [[j xc]|]] oc]; cbn; rewrite <- ?app_assoc; reflexivity. }
-    destruct (run_main roots BeforeAssert rt2 0 (t_before_assert tc)) as [[rt3 [[i3 x3]|]] o3].
-    { destruct (run_main roots Cleanup rt3 0 (t_cleanup tc)) as [[rtc fc] oc]. cbn. rewrite <- ?app_assoc. reflexivity. }
-    destruct (run_main roots Assert rt3 0 (t_assert tc)) as [[rt4 [[i4 x4]|]] o4];
-      destruct (run_main roots Cleanup rt4 0 (t_cleanup tc)) as [[rtc [[j xc]|]] oc]; cbn; rewrite <- ?app_assoc, ?app_nil_r;
-      reflexivity.
-  Qed.
+  Proof. unfold sym_execute. apply (sym_execute_gen_seq false). Qed.
 
   Lemma spec_expected_seq b tc :
     spec_expected roots b tc =
